@@ -1,2 +1,231 @@
-(* Properties/C18.v — placeholder, filled once Proofs.v exists *)
-From Verif Require Import C18.Model C18.Spec.
+(* Properties/C18.v — Area classification of ways follows the published polygon-features rules.
+
+   ONLY statements, each closed by [exact] of a lemma of C18/{StrOrder,Proofs,GenOk,Main}.v,
+   Print Assumptions, and non-vacuity Examples.
+
+   Objects: Model.way_polygon / relation_polygon / search_strings / init_table model
+   /repo/polygon.go and Tags.Find statement by statement (C18/Model.v).
+   Model.RT is init_table applied to the table that translator/cmd/polygon re-reads from the
+   polygonJSON literal of /repo/polygon.go on every run (VerifGen.GenPolygon).
+   Spec.SpecTable is an independent hand copy of the published table; Spec.spec_polygon is the
+   declarative rule over the tag SET.  All statements are for arbitrary strings, arbitrary
+   node-id lists and arbitrary tag lists; nothing is bounded.
+
+   Duplicate keys.  A tag SET has one value per key (hypothesis NoDup (keys ts)).  For tag
+   LISTS with repeated keys Go's Tags.Find returns the first match; the theorems say so
+   explicitly: the answer is the specification's answer for the list with later duplicates
+   removed (C18_way_polygon_any_tag_list), and an Example shows that order does matter then.
+   A tag with the empty value counts as absent (Find returns "" for "not found"). *)
+From Coq Require Import String List Bool Arith ZArith Permutation.
+From Verif Require Import C18.Model C18.Spec C18.Equiv C18.StrOrder C18.Proofs C18.GenOk C18.Main.
+From VerifGen Require Import GenPolygon.
+Import ListNotations.
+Open Scope string_scope.
+Open Scope list_scope.
+
+(* ---- 1. sort.SearchStrings: a correct lower-bound binary search on sorted lists ---- *)
+
+(* for every sorted list and every string: terminates within fuel [length a], never indexes
+   out of range, and returns k = the number of elements < x, which are exactly those before k *)
+Theorem C18_search_strings_lower_bound : forall (a : list string) (x : string),
+  sortedb a = true ->
+  exists k, search_strings a x = Val k /\ (k <= length a)%nat /\
+    (forall p u, nth_error a p = Some u -> ((p < k)%nat <-> String.ltb u x = true)).
+Proof. exact search_strings_lower_bound. Qed.
+Print Assumptions C18_search_strings_lower_bound.
+
+(* hence the code's test "index != len && a[index] == x" decides membership *)
+Theorem C18_search_strings_finds : forall (a : list string) (x : string),
+  sortedb a = true ->
+  exists k, search_strings a x = Val k /\ (k <= length a)%nat /\
+    (In x a <-> nth_error a k = Some x).
+Proof. exact search_strings_finds. Qed.
+Print Assumptions C18_search_strings_finds.
+
+(* the order used is a total order on byte strings (what Go's < on strings is) *)
+Theorem C18_string_order_total : forall a b c : string,
+  String.leb a a = true /\
+  (String.leb a b = true -> String.leb b c = true -> String.leb a c = true) /\
+  (String.leb a b = true -> String.leb b a = true -> a = b) /\
+  (String.leb a b = true \/ String.leb b a = true) /\
+  (String.ltb a b = false <-> String.leb b a = true).
+Proof.
+  intros a b c. split; [exact (leb_refl a)|]. split; [exact (leb_trans a b c)|].
+  split; [exact (String.leb_antisym a b)|]. split; [exact (String.leb_total a b)|exact (ltb_false_leb a b)].
+Qed.
+Print Assumptions C18_string_order_total.
+
+(* ---- 2. init(): the value lists are sorted, with the same members; the table is the published one ---- *)
+
+Theorem C18_init_sorts_any_table : forall raw : list (string * string * list string),
+  table_sortedb (init_table raw) = true.
+Proof. exact init_table_sorted. Qed.
+Print Assumptions C18_init_sorts_any_table.
+
+Theorem C18_init_keeps_members : forall (k c : string) (vs : list string) (v : string),
+  In v (rvalues (init_rule (k, c, vs))) <-> In v vs.
+Proof. exact init_rule_values. Qed.
+
+(* modelling sort.Sort by insertion sort loses nothing: a sorted permutation is unique *)
+Theorem C18_sorted_permutation_unique : forall l1 l2 : list string,
+  Permutation l1 l2 -> sortedb l1 = true -> sortedb l2 = true -> l1 = l2.
+Proof. exact sorted_perm_unique. Qed.
+Print Assumptions C18_sorted_permutation_unique.
+
+(* finite checks on the table re-read from /repo on this run *)
+Theorem C18_runtime_table_sorted : table_sortedb RT = true.
+Proof. exact gen_table_sorted. Qed.
+Print Assumptions C18_runtime_table_sorted.
+
+Theorem C18_runtime_table_same_sets_as_published : table_matchesb RT SpecTable = true.
+Proof. exact gen_table_matches_published. Qed.
+Print Assumptions C18_runtime_table_same_sets_as_published.
+
+(* ---- 3. Way.Polygon = the published rules ---- *)
+
+(* tag sets: for ALL node lists and ALL tag lists with distinct keys the function returns
+   normally and says "area" exactly when the declarative specification does *)
+Theorem C18_way_polygon_spec : forall (nodes : list Z) (ts : tags),
+  NoDup (keys ts) ->
+  exists b, way_polygon RT nodes ts = Val b /\ (b = true <-> spec_polygon nodes ts).
+Proof. exact way_polygon_RT_spec. Qed.
+Print Assumptions C18_way_polygon_spec.
+
+(* all tag lists, no hypothesis: first match per key *)
+Theorem C18_way_polygon_any_tag_list : forall (nodes : list Z) (ts : tags),
+  exists b, way_polygon RT nodes ts = Val b /\
+            (b = true <-> spec_polygon nodes (dedup_first ts)).
+Proof. exact way_polygon_RT_spec_dups. Qed.
+Print Assumptions C18_way_polygon_any_tag_list.
+
+Theorem C18_dedup_first_is_a_tag_set : forall ts : tags,
+  NoDup (keys (dedup_first ts)) /\ incl (dedup_first ts) ts /\
+  (forall k, find k (dedup_first ts) = find k ts) /\
+  (NoDup (keys ts) -> dedup_first ts = ts).
+Proof.
+  intros ts. split; [exact (dedup_first_nodup ts)|]. split; [exact (dedup_first_incl ts)|].
+  split; [intros k; exact (find_dedup_first k ts)|exact (dedup_first_id ts)].
+Qed.
+
+(* the same, as a closed boolean formula over Find (this is what the harness oracle evaluates) *)
+Theorem C18_way_polygon_bool : forall (nodes : list Z) (ts : tags),
+  way_polygon RT nodes ts = Val (spec_polygonb nodes (fun k => find k ts)).
+Proof. exact way_polygon_RT_bool. Qed.
+Print Assumptions C18_way_polygon_bool.
+
+Theorem C18_oracle_is_spec : forall (nodes : list Z) (ts : tags),
+  nodupb (keys ts) = true ->
+  (spec_polygonb nodes (lookup ts) = true <-> spec_polygon nodes ts).
+Proof. exact oracle_is_spec. Qed.
+
+(* no index panic, no fuel exhaustion, whatever the input *)
+Theorem C18_way_polygon_total : forall (nodes : list Z) (ts : tags),
+  way_polygon RT nodes ts <> IndexPanic /\ way_polygon RT nodes ts <> NoFuel.
+Proof. exact way_polygon_RT_total. Qed.
+Print Assumptions C18_way_polygon_total.
+
+(* the same theorem for ANY table whose value lists are sorted and which equals a spec table as
+   a set of rules (so it survives additions to the published table) *)
+Theorem C18_way_polygon_any_sorted_table :
+  forall (T : list rule) (S : list srule) (nodes : list Z) (ts : tags),
+  table_sortedb T = true -> table_matchesb T S = true ->
+  way_polygon T nodes ts = Val (closed_ringb nodes && spec_areab S (fun k => find k ts)).
+Proof. exact way_polygon_bool_spec. Qed.
+Print Assumptions C18_way_polygon_any_sorted_table.
+
+(* ---- 4. the answer depends only on the tag set ---- *)
+
+Theorem C18_tag_order_irrelevant : forall (T : list rule) (nodes : list Z) (ts ts' : tags),
+  Permutation ts ts' -> NoDup (keys ts) ->
+  way_polygon T nodes ts = way_polygon T nodes ts'.
+Proof. exact way_polygon_perm. Qed.
+Print Assumptions C18_tag_order_irrelevant.
+
+(* a tag whose key is neither "area" nor a rule key can be inserted anywhere *)
+Theorem C18_unrelated_tag_irrelevant :
+  forall (T : list rule) (nodes : list Z) (l1 l2 : tags) (k v : string),
+  ~ relevant T k ->
+  way_polygon T nodes (l1 ++ (k, v) :: l2) = way_polygon T nodes (l1 ++ l2).
+Proof. exact way_polygon_insert_irrelevant. Qed.
+Print Assumptions C18_unrelated_tag_irrelevant.
+
+(* all unrelated tags can be dropped at once *)
+Theorem C18_only_relevant_tags_matter : forall (T : list rule) (nodes : list Z) (ts : tags),
+  way_polygon T nodes (filter (fun t => relevantb T (fst t)) ts) = way_polygon T nodes ts.
+Proof. exact way_polygon_filter_relevant. Qed.
+Print Assumptions C18_only_relevant_tags_matter.
+
+(* more generally: two tag lists that agree under Find on "area" and the rule keys *)
+Theorem C18_depends_on_relevant_lookups : forall (T : list rule) (nodes : list Z) (ts ts' : tags),
+  (forall k, relevant T k -> find k ts = find k ts') ->
+  way_polygon T nodes ts = way_polygon T nodes ts'.
+Proof. exact way_polygon_ext. Qed.
+
+(* ---- 5. relations ---- *)
+
+Theorem C18_relation_polygon_spec : forall ts : tags,
+  NoDup (keys ts) ->
+  (relation_polygon ts = true <->
+   In ("type", "multipolygon") ts \/ In ("type", "boundary") ts).
+Proof. exact relation_polygon_iff. Qed.
+Print Assumptions C18_relation_polygon_spec.
+
+Theorem C18_relation_polygon_any_tag_list : forall ts : tags,
+  relation_polygon ts = true <-> find "type" ts = "multipolygon" \/ find "type" ts = "boundary".
+Proof.
+  intros ts. unfold relation_polygon. rewrite orb_true_iff, !String.eqb_eq. reflexivity.
+Qed.
+
+(* ---- non-vacuity and sharpness ---- *)
+
+Definition ring4 : list Z := [100; 101; 102; 100]%Z.
+
+(* the hypotheses are satisfiable by non-trivial objects *)
+Example ex_sorted_list : sortedb ["dam"; "dock"; "dock"; "riverbank"] = true.
+Proof. reflexivity. Qed.
+Example ex_search : search_strings ["boatyard"; "dam"; "dock"; "riverbank"] "dock" = Val 2%nat
+                    /\ search_strings ["boatyard"; "dam"; "dock"; "riverbank"] "dal" = Val 1%nat
+                    /\ search_strings ["boatyard"; "dam"; "dock"; "riverbank"] "zoo" = Val 4%nat.
+Proof. vm_compute. repeat split. Qed.
+Example ex_tag_set : NoDup (keys [("highway", "elevator"); ("name", "x"); ("area", "")]).
+Proof. repeat constructor; cbn; intuition discriminate. Qed.
+Example ex_closed_ring : closed_ring ring4.
+Proof. exists 100%Z, [101; 102]%Z. split; [reflexivity|apply le_n]. Qed.
+
+(* instances, evaluated *)
+Example ex_area : way_polygon RT ring4 [("highway", "elevator"); ("name", "x")] = Val true.
+Proof. vm_compute. reflexivity. Qed.
+Example ex_not_area : way_polygon RT ring4 [("highway", "primary")] = Val false.
+Proof. vm_compute. reflexivity. Qed.
+Example ex_area_no : way_polygon RT ring4 [("building", "yes"); ("area", "no")] = Val false.
+Proof. vm_compute. reflexivity. Qed.
+Example ex_three_refs : way_polygon RT [1; 2; 1]%Z [("building", "yes")] = Val false.
+Proof. vm_compute. reflexivity. Qed.
+Example ex_open : way_polygon RT [1; 2; 3; 4]%Z [("building", "yes")] = Val false.
+Proof. vm_compute. reflexivity. Qed.
+Example ex_relation : relation_polygon [("name", "x"); ("type", "boundary")] = true
+                      /\ relation_polygon [("type", "route")] = false.
+Proof. vm_compute. split; reflexivity. Qed.
+
+(* sharpness 1: the sort in init is needed.  On the highway whitelist in SOURCE order the same
+   search misses "elevator": the model follows the code, it does not assume the answer. *)
+Example ex_unsorted_table_misclassifies :
+  let T := [mkRule "highway" CWhitelist ["services"; "rest_area"; "escape"; "elevator"]] in
+  table_sortedb T = false /\
+  way_polygon T ring4 [("highway", "elevator")] = Val false /\
+  way_polygon (init_table [("highway", cond_whitelist, ["services"; "rest_area"; "escape"; "elevator"])])
+              ring4 [("highway", "elevator")] = Val true.
+Proof. vm_compute. repeat split. Qed.
+
+(* sharpness 2: with a repeated key the tag ORDER matters (so NoDup in C18_tag_order_irrelevant
+   cannot be dropped); such a list is not a tag set *)
+Example ex_duplicate_keys_order_matters :
+  way_polygon RT ring4 [("area", "no"); ("area", "yes")] = Val false /\
+  way_polygon RT ring4 [("area", "yes"); ("area", "no")] = Val true.
+Proof. vm_compute. split; reflexivity. Qed.
+
+(* sharpness 3: an empty value counts as absent *)
+Example ex_empty_value_is_absent :
+  way_polygon RT ring4 [("building", "")] = Val false /\
+  way_polygon RT ring4 [("area", ""); ("building", "yes")] = Val true.
+Proof. vm_compute. split; reflexivity. Qed.
